@@ -150,6 +150,7 @@ func LoadRepo(repoDir, tier string, tags []string, goos string) (*Ctx, error) {
 		}
 	}
 	computePhiAliases(c)
+	computeSentinelErrors(c)
 	return c, nil
 }
 
